@@ -146,6 +146,13 @@ class Program:
         self.renames: Dict[str, str] = renames.canonicalise(
             {mi.relpath: mi.tree for mi in self.modules.values()}
         )
+        # loops spelled with an explicit iterator, index or flag are read as the for / while-True loops they are
+        from . import desugar
+
+        self.desugared: int = 0
+        if not os.environ.get("PAMSA_NO_DESUGAR"):
+            for mi in self.modules.values():
+                self.desugared += desugar.desugar_module(mi.tree)
         for mi in self.modules.values():
             self._index_module(mi)
         if self._dups:
